@@ -1159,6 +1159,8 @@ class SshX509CertificateChain(ParsableBase, SshHostKeyBase):
         parser = cls._parse_host_key_algorithm(parsable)
 
         parser.parse_numeric('certificate_count', 4)
+        if not parser['certificate_count']:
+            raise InvalidValue(parser['certificate_count'], cls, 'certificate_count')
         certificates = []
         for _ in range(parser['certificate_count']):
             parser.parse_bytes('certificate', 4)
